@@ -201,7 +201,7 @@ CHECKS["C17"] = (
 CHECKS["C01"] = (
     "model_checking",
     "bounded-exhaustive enumeration of engine recipes x input rows executed on the real engine against a reference pipeline",
-    "Six recipe sub-spaces, each enumerated completely: all 7x9x7x9 operator assignments of a 3-rule engine x integral "
+    "Eight recipe sub-spaces, each enumerated completely: all 7x9x7x9 operator assignments of a 3-rule engine x integral "
     "defuzzifiers; every shape term as input and output term, Takagi-Sugeno (Constant/Linear/Function), Tsukamoto and "
     "inverse Tsukamoto outputs; all 2^10 enabled-flag assignments of a 2x2x2 engine; output variables in antecedents "
     "under 10 aggregations x all rule orders x block orders x activation methods; all antecedent trees x weights x "
@@ -276,6 +276,11 @@ CHECKS["C15"] = (
 REASON_NOT_BUILT = "check not built yet in this phase (planned in DESIGN.md section 5); no claim is made"
 
 
+SUFFIX = (" The alphabets were enlarged after five rounds of independently written property-breaking changes (argument kinds, "
+          "construction paths, shared and long-lived objects, configuration switches, extreme values); the complete and current "
+          "enumeration rule is in the evidence file (coverage.rule) and in the [built] notes of the design section.")
+
+
 def main() -> None:
     checks = []
     for pid in ALL:
@@ -290,7 +295,7 @@ def main() -> None:
                 "evidence_file": f"/verif/evidence/{pid}.json",
                 "replay_cmd_template": f"./check {pid} --replay {{path}}",
                 "engine": "vmc",
-                "level_claimed": {"category": level, "text": text, "design_ref": f"DESIGN.md section {ref}"},
+                "level_claimed": {"category": level, "text": text + SUFFIX, "design_ref": f"DESIGN.md section {ref}"},
                 "level_note": note,
                 "technique": technique,
             }
